@@ -34,7 +34,7 @@ import (
 
 type c21Case struct {
 	Seed string   `json:"seed"`
-	Raw  []byte   `json:"raw,omitempty"` // Seed=="raw": the input itself
+	Raw  []byte   `json:"raw,omitempty"` // Seed=="raw", "gram" or "comp": the input itself
 	Win  [2]int   `json:"win"`           // top-level declaration window: first, count (count 0: whole file)
 	Muts []c21Mut `json:"muts"`
 	Mode int      `json:"mode"` // index into c21Modes
@@ -57,8 +57,8 @@ var c21Modes = []goparser.Mode{
 // c21Source builds the input text of a case.
 func c21Source(c c21Case) ([]byte, error) {
 	var src []byte
-	if c.Seed == "raw" {
-		src = c.Raw
+	if c.Seed == "raw" || c.Seed == "gram" || c.Seed == "comp" {
+		src = c.Raw // the input itself: raw bytes, a generated file (c21Gram) or a composition (TestC21_Compose)
 	} else {
 		b, err := c21GetSeeds().text(c.Seed)
 		if err != nil {
@@ -456,6 +456,12 @@ func c21Exec(ctx *vk.Ctx, c c21Case) error {
 	ctx.ClassIf(len(f1.errs) > 0, "has-errors")
 	ctx.ClassIf(nd >= 1, "has-decls")
 
+	if kind == "gram" || kind == "comp" {
+		ctx.ClassIf(len(c.Muts) == 0 && len(ra.errs) == 0, kind+"-unmutated-valid")
+		ctx.ClassIf(len(c.Muts) == 0 && len(ra.errs) > 0, kind+"-unmutated-invalid")
+		c21ContextClasses(ctx, ra.file)
+	}
+
 	// (3) the two references
 	dA, dB, dAB := c21SameOut(f1, ra), c21SameOut(f1, rb), c21SameOut(ra, rb)
 	if dAB == "" {
@@ -590,17 +596,30 @@ func TestC21_Parser(t *testing.T) {
 		ID: "C21", Name: "TestC21_Parser", Rule: c21Rule,
 		Draw: func(rt *rapid.T) c21Case {
 			var c c21Case
-			switch rapid.IntRange(0, 9).Draw(rt, "kind") {
+			gram := false
+			switch rapid.IntRange(0, 13).Draw(rt, "kind") {
 			case 0:
 				c.Seed = "raw"
 				pre := rapid.SampledFrom([]string{"", "package p\n", "package p; func f() { ", "package p; var _ = "}).Draw(rt, "prefix")
 				c.Raw = append([]byte(pre), rapid.SliceOfN(rapid.Byte(), 0, 40).Draw(rt, "raw")...)
+			case 10, 11, 12, 13:
+				c.Seed = "gram"
+				c.Raw = c21Gram(rt)
+				gram = true
 			case 1, 2, 3:
 				c.Seed = small[rapid.IntRange(0, len(small)-1).Draw(rt, "small")]
 			default:
 				c.Seed = seeds.keys[rapid.IntRange(0, len(seeds.keys)-1).Draw(rt, "seed")]
 			}
 			c.Mode = rapid.SampledFrom([]int{0, 0, 0, 1, 2, 3, 4, 4, 5, 6, 7, 8, 9}).Draw(rt, "mode")
+			if gram {
+				// generated files: whole, in a full-parse mode, undamaged in half of the cases
+				c.Mode = rapid.SampledFrom([]int{0, 0, 0, 1, 2, 3, 4, 4, 5, 6}).Draw(rt, "gmode")
+				if rapid.IntRange(0, 1).Draw(rt, "damage") == 1 {
+					c.Muts = c21DrawMuts(rt, 2)
+				}
+				return c
+			}
 			if rapid.IntRange(0, 9).Draw(rt, "expr") == 0 {
 				c.Expr = true
 				c.Win = [2]int{rapid.IntRange(0, 4000).Draw(rt, "ws"), rapid.IntRange(0, 39).Draw(rt, "wl")}
